@@ -11,11 +11,74 @@ RULE = ("multi-epoch fan-out histories (publish / unpublish cycles with changing
 ASSUMPTIONS = ["HLS segment finalisation and TS audio flush at teardown are decided in C10 / C06 (hls.Muxer, Rtmp2MpegtsRemuxer)",
                "removal of empty groups, idle-input disposal and goroutine/descriptor baselines are ServerManager / runtime behaviour: "
                "measured by the C03 harness where possible, not part of this model (partial)",
-               "the stream hook (OnMsg count, OnStop exactly once per input) is checked by the oracle on the implementation only; it is not in the Coq model"]
+               "the stream hook is a modelled consumer: which message every OnMsg carried and the OnStop count per input are compared model == implementation"]
 FULL_OUTPUT = True
 
 
+def gen_idle(tier, rng):
+    """liveness sweep: sessions with exactly driven byte counters, ticks around multiples of 120"""
+    n = 120 if tier == "quick" else 1500
+    for k in range(n):
+        ev = []
+        sess = {}
+        nid = 1
+        pub_stage = 0
+        for step in range(rng.randrange(3, 14)):
+            a = rng.random()
+            if a < 0.3 and len(sess) < 5:
+                kind = rng.choice(["sr", "sf", "st"] + ([] if any(v == "pr" for v in sess.values()) else ["pr", "pr"]))
+                sess[nid] = kind
+                ev.append("a:%d:%s" % (nid, kind))
+                if kind == "pr":
+                    ev.append("b:%d:1537:0" % nid)
+                    pub_stage = 1
+                nid += 1
+            elif a < 0.65 and sess:
+                i = rng.choice(list(sess))
+                if sess[i] == "pr":
+                    if pub_stage == 1:
+                        ev.append("b:%d:1536:0" % i)
+                        pub_stage = 2
+                    else:
+                        ev.append("b:%d:%d:0" % (i, 16 * rng.randrange(1, 4)))
+                else:
+                    ev.append("b:%d:0:%d" % (i, rng.choice([1, 7, 100, 5000])))
+            else:
+                base = rng.choice([120, 240, 360, 1200, 4294967280])
+                ev.append("t:%d" % (base + rng.choice([0, 0, 0, 1, 119, 60])))
+        yield Case("c16.idle " + ";".join(ev), cls="idle-sweep")
+
+
+def idle_oracle(c, out):
+    if out.startswith(("panic@", "crash@", "timeout", "err", "bad")):
+        return (False, "implementation failed: " + out)
+    evs = [e.split(":") for e in c.line.split(" ")[1].split(";") if e]
+    st = {}   # id -> dict(kind, r, w, stale, closed)
+    for e in evs:
+        if e[0] == "a":
+            st[e[1]] = dict(kind=e[2], r=0, w=0, stale=None, closed=False)
+        elif e[0] == "b":
+            x = st[e[1]]
+            if not x["closed"]:
+                x["r"] += int(e[2]); x["w"] += int(e[3])
+        elif e[0] == "t" and int(e[1]) % 120 == 0:
+            for x in st.values():
+                cur = x["r"] if x["kind"] == "pr" else x["w"]
+                if x["stale"] is not None and cur == x["stale"]:
+                    x["closed"] = True     # counter did not move since the previous sweep
+                x["stale"] = cur
+    got = dict(p.split("=") for p in out.split("|"))
+    for i, x in st.items():
+        if got.get(i) != ("1" if x["closed"] else "0"):
+            return (False, "session %s (%s): disposed=%s, the idle rule says %s" % (i, x["kind"], got.get(i), x["closed"]))
+    want_inactive = all(x["closed"] for x in st.values())
+    if got.get("inactive") != ("1" if want_inactive else "0"):
+        return (False, "group.IsInactive()=%s with %d sessions left" % (got.get("inactive"), sum(not x["closed"] for x in st.values())))
+    return (True, "")
+
+
 def gen_cases(tier, rng):
+    yield from gen_idle(tier, rng)
     kinds = ["r", "f", "w", "t"]
     names = sorted(fanout.STREAMS)
     n = 260 if tier == "quick" else 3000
@@ -26,6 +89,10 @@ def gen_cases(tier, rng):
         cfg["mw"] = rng.choice([0, 0, 1, 8192])
         if k % 3 == 0:
             cfg["push"] = 1
+        trec = k % 4 == 1
+        if trec:
+            # MPEG-TS recording: see the harness - fewer than 16 messages per input, never audio and video together
+            cfg["trec"] = 1
         h = fanout.Hist(rng, cfg)
         live = []
         epochs = rng.choice([2, 2, 3, 4])
@@ -40,8 +107,10 @@ def gen_cases(tier, rng):
                 h.sdp()
             if rng.random() < 0.4:
                 h.describe()
-            seq = list(fanout.STREAMS[rng.choice(names)])
+            seq = list(fanout.STREAMS[rng.choice(names if not trec else ["video", "audio", "g711", "ehevc"])])
             cut = rng.randrange(0, len(seq) + 1)
+            if trec and rng.random() < 0.5:
+                h.pat()
             for kind in seq[:cut]:
                 a = rng.random()
                 if a < 0.2:
@@ -49,35 +118,51 @@ def gen_cases(tier, rng):
                 elif a < 0.3 and live:
                     h.leave(live.pop(rng.randrange(len(live))))
                 h.pub(kind)
-                if rng.random() < 0.3:
+                if rng.random() < (0.6 if trec else 0.3):
                     h.ts(rng.random() < 0.4)
+                if trec and rng.random() < 0.1:
+                    h.pat()
             if rng.random() < 0.15:
                 h.stop()       # a second stop of the same input must be a no-op
             quick = cfg.get("push") and rng.random() < 0.5 and e + 1 < epochs
             was_quick = bool(quick)
+            if e + 1 == epochs and k % 3 == 1:
+                break            # server shutdown while this input is attached (Group.Dispose below)
             if quick:
                 h.stop_quick()   # the next input follows at once; then a tick
             else:
                 h.stop()
+            if trec and rng.random() < 0.4:
+                h.ts(True)       # TS data handed over while no input is attached: recorded nowhere
+            if rng.random() < 0.2:
+                h.pub(rng.choice(["aac", "inter"]))   # a frame handed over after the input was removed: no hook, no recording, nothing cached
             if rng.random() < 0.5:
                 h.describe()
             if rng.random() < 0.3:
                 live.append(h.join(rng.choice(kinds)))
-        if cfg.get("push"):
+        if cfg.get("push") and k % 3 != 1:
             h.tick()
-        yield Case(h.line(), cls="%d-epochs%s" % (epochs, "-push" if cfg.get("push") else ""))
+        if k % 3 == 1 or k % 7 == 0:
+            h.dispose()      # with the last input still attached (k % 3 == 1) or after it has ended
+        yield Case(h.line(), cls="%d-epochs%s%s" % (epochs, "-push" if cfg.get("push") else "", "-dispose" if h.ev[-1] == "X" else ""))
+    # RTSP subscribers across publish / unpublish cycles (DESCRIBE before, during and after inputs; late RTP packets)
+    yield from fanout.gen_rtsp_histories(tier, rng, multi_epoch=True)
 
 
 def split_impl(c, out):
-    """the hook is observed on the implementation only"""
-    return "|".join(p for p in out.split("|") if not p.startswith(("hook=", "popen="))) or "-"
+    """popen= (relay-push sessions still open at the end) is observed on the implementation only"""
+    return "|".join(p for p in out.split("|") if not p.startswith("popen=")) or "-"
 
 
 def nontrivial(c, out):
+    if c.line.startswith("c16.idle"):
+        return c.line if "=1" in out else None
     return c.line if c.line.count(";I") + c.line.startswith("c01.hist") >= 2 else None
 
 
 def oracle(c, out):
+    if c.line.startswith("c16.idle"):
+        return idle_oracle(c, out)
     if out.startswith(("panic@", "crash@", "timeout", "err", "bad")):
         return (False, "implementation failed: " + out)
     cfg, evs = fanout.parse_case(c.line)
@@ -90,7 +175,7 @@ def oracle(c, out):
             epoch += 1
             in_epoch = True
             spans.append([pos, len(evs)])
-        elif e[0] in ("O", "Oq") and in_epoch:
+        elif e[0] in ("O", "Oq", "X") and in_epoch:
             in_epoch = False
             spans[-1][1] = pos
         elif e[0] == "P":
@@ -114,17 +199,43 @@ def oracle(c, out):
     for ep in range(nep):
         if recs[ep][:1] != ["F"] or recs[ep][1:] != ["t%d" % i for i in per_epoch[ep]]:
             return (False, "recording of input %d is not header + exactly its messages: %s" % (ep, recs[ep][:16]))
+    # server shutdown: every session the group held is disposed
+    if evs and evs[-1][0] == "X":
+        lv = obs.get("live")
+        if lv != [[]]:
+            return (False, "after Group.Dispose() these sessions are still open: %s" % (lv,))
+    # MPEG-TS recording: one file per input, holding exactly the PAT/PMT and TS blobs of that input, in order
+    if cfg.get("trec"):
+        trecs = obs.get("trec", [])
+        if nep and len(trecs) != nep:
+            return (False, "%d TS recordings for %d inputs" % (len(trecs), nep))
+        na = nt = 0
+        want = [[] for _ in range(nep)]
+        for pos, e in enumerate(evs):
+            if e[0] in ("A", "T"):
+                lab = ("a%d" % na) if e[0] == "A" else ("s%d" % nt)
+                if e[0] == "A":
+                    na += 1
+                else:
+                    nt += 1
+                for ep, sp in enumerate(spans):
+                    if sp[0] < pos < sp[1]:
+                        want[ep].append(lab)
+        for ep in range(nep):
+            if trecs[ep] != want[ep]:
+                return (False, "TS recording of input %d holds %s, handed to the group during it: %s" % (ep, trecs[ep][:16], want[ep][:16]))
     # stream hook: every non-empty message of the input, exactly one stop
     hk = obs.get("hook")
     if hk is not None and nep:
         if len(hk) != nep:
             return (False, "hook created %d times for %d inputs" % (len(hk), nep))
         for ep in range(nep):
-            n, stops = hk[ep][0].split(":")
+            told, stops = ",".join(hk[ep]).split(":")
             if int(stops) != 1:
                 return (False, "hook of input %d told to stop %s times" % (ep, stops))
-            if int(n) != len(per_epoch[ep]):
-                return (False, "hook of input %d saw %s messages, %d published" % (ep, n, len(per_epoch[ep])))
+            told = [] if told == "-" else told.split(",")
+            if told != [str(i) for i in per_epoch[ep]]:
+                return (False, "hook of input %d was told messages %s, published (non-empty) during it: %s" % (ep, told[:16], per_epoch[ep][:16]))
     # push: one session per input, closed with the input, holding only that input's messages
     for cid, k in kinds.items():
         if k == "p":
@@ -139,25 +250,10 @@ def oracle(c, out):
     po = obs.get("popen")
     if po is not None and po != [["0"]]:
         return (False, "%s relay-push session(s) still open at the target after the last input ended" % po[0][0])
-    # a DESCRIBE is answered with the SDP of the CURRENT input only
-    for cid, pos in describes.items():
-        got = obs.get(cid, [[]])[0]
-        cur = None
-        for ep, sp in enumerate(spans):
-            if sp[0] < pos < sp[1]:
-                cur = ep
-        want = None
-        for kk, sd in enumerate(sdps):
-            if sd["pos"] < pos and sd["epoch"] is not None and sd["epoch"] == cur:
-                want = kk
-        if cur is None:
-            # no input attached: whatever was announced before the last input ended must be gone
-            last_end = max([sp[1] for sp in spans if sp[1] < pos], default=-1)
-            late = [kk for kk, sd in enumerate(sdps) if last_end < sd["pos"] < pos]
-            want = late[-1] if late else None
-        exp = [] if want is None else ["d%d" % want]
-        if got != exp:
-            return (False, "DESCRIBE %s answered with %s, the current input's SDP is %s" % (cid, got, exp))
+    # RTSP subscribers: a DESCRIBE is answered with the SDP of the CURRENT input only (never one of an input that has ended)
+    r = fanout.check_rtsp(cfg, evs, obs)
+    if r:
+        return (False, "[%s] %s" % r)
     # clean restart: a consumer that joined during or after input e never receives anything of an earlier input
     for cid, k in kinds.items():
         if k in ("p", "t") or obs.get(cid) == [["!"]]:
